@@ -1,2 +1,72 @@
-(* C15 - key-free DNSSEC computations equal an independent RFC reference. *)
+(* C15 - key-free DNSSEC computations equal an independent RFC 4034/4035/5155/6840 reference.
+   Model: coq/Model/DnssecM.v (mirrors dns/dnssec.py, dns/rdata.py, dns/rdtypes/dnskeybase.py,
+   dns/rdtypes/util.py, dns/zone.py).  Reference: coq/Proofs/DnssecRef.v (written from the RFCs).
+   Two more theorems are generated and checked on every run against the table extracted from the
+   current dns/rdtypes/** (tools/translate_canon.py -> GenCanon.v in the scratch dir):
+     canon_flags_match_rfc4034   : forallb flag_ok table = true
+     canonical_rdata_eq_rfc4034  : digestable table cls ty fs origin = rfc4034_canonical_rdata ty fs origin *)
 From DV Require Import Base.Prelude Model.NameM Model.DnssecM.
+From DV Require Import Proofs.NameValid Proofs.DnssecRef Proofs.DnssecCanon Proofs.DnssecKey.
+Open Scope Z_scope.
+
+(* Rdata.to_digestable, for any per-type table that passes the RFC 4034 6.2 check, is the RFC
+   canonical RDATA: names expanded, never compressed, lower-cased exactly for the listed types *)
+Theorem canonical_rdata_eq_rfc : forall tbl : list entry,
+  forallb flag_ok tbl = true ->
+  forall cls ty fs origin,
+    arity_ok tbl cls ty fs = true ->
+    digestable tbl cls ty fs origin = rfc4034_canonical_rdata ty fs origin.
+Proof. exact digestable_eq_rfc. Qed.
+Print Assumptions canonical_rdata_eq_rfc.
+
+(* DNSKEY.key_id == RFC 4034 appendix B, both branches (algorithm 1 and the checksum) *)
+Theorem keytag_eq_rfc : forall flags protocol alg key,
+  0 <= flags < 65536 -> 0 <= protocol < 256 -> 0 <= alg < 256 -> bytes_ok key ->
+  key_id flags protocol alg key =
+  Ok (let rdata := u16 flags ++ [protocol; alg] ++ key in
+      if alg =? 1 then rfc_keytag_alg1 rdata else rfc_keytag rdata).
+Proof. exact key_id_eq_rfc. Qed.
+Print Assumptions keytag_eq_rfc.
+
+(* make_ds hashes exactly  canonical owner | DNSKEY RDATA  (RFC 4034 5.1.4) and fills the DS fields *)
+Theorem ds_input_eq_rfc : forall owner flags protocol alg key dtype,
+  Valid owner -> is_absolute owner = true ->
+  0 <= flags < 65536 -> 0 <= protocol < 256 -> 0 <= alg < 256 -> bytes_ok key ->
+  dtype = 1 \/ dtype = 2 \/ dtype = 4 ->
+  make_ds owner flags protocol alg key dtype =
+  Ok (rfc_ds_input owner flags protocol alg key,
+      (let rdata := u16 flags ++ [protocol; alg] ++ key in
+       if alg =? 1 then rfc_keytag_alg1 rdata else rfc_keytag rdata),
+      alg, dtype).
+Proof. exact make_ds_eq_rfc. Qed.
+Print Assumptions ds_input_eq_rfc.
+
+(* nsec3_hash == RFC 5155 section 5 (iterated hash, base32hex) for every hash function *)
+Theorem nsec3_eq_rfc : forall (H : bytes -> bytes) domain salt iterations,
+  Valid domain -> is_absolute domain = true ->
+  nsec3_hash H domain salt iterations 1 = Ok (rfc_nsec3_hash H domain salt (Z.to_nat iterations)).
+Proof. exact nsec3_hash_eq_rfc. Qed.
+Print Assumptions nsec3_eq_rfc.
+
+(* ---------- non-vacuity ---------- *)
+Example keytag_hyps_satisfiable :
+  key_id 257 3 8 [1; 2; 3; 4; 5] = Ok (rfc_keytag (u16 257 ++ [3; 8] ++ [1; 2; 3; 4; 5]))
+  /\ key_id 256 3 1 [9; 8; 7] = Ok (9 * 256 + 8).
+Proof. split; vm_compute; reflexivity. Qed.
+
+Example ds_hyps_satisfiable :
+  Valid [[69; 120]; []] /\ is_absolute [[69; 120]; []] = true /\
+  make_ds [[69; 120]; []] 256 3 8 [1; 2] 2 = Ok ([2; 101; 120; 0; 1; 0; 3; 8; 1; 2], 1290, 8, 2).
+Proof.
+  split; [|split; vm_compute; reflexivity].
+  repeat split; repeat constructor; cbn; try lia; discriminate.
+Qed.
+
+Example canonical_rdata_nonvacuous :
+  let tbl := [ {| e_class := 255; e_type := 15; e_calls := [{| c_none := true; c_canon := true |}]; e_loop := None |};
+               {| e_class := 255; e_type := 107; e_calls := [{| c_none := true; c_canon := false |}]; e_loop := None |} ] in
+  forallb flag_ok tbl = true /\
+  arity_ok tbl 1 15 [FRaw [0; 10]; FName [[77; 88]; []]] = true /\
+  digestable tbl 1 15 [FRaw [0; 10]; FName [[77; 88]; []]] None = Ok [0; 10; 2; 109; 120; 0] /\
+  digestable tbl 1 107 [FRaw [0; 10]; FName [[77; 88]; []]] None = Ok [0; 10; 2; 77; 88; 0].
+Proof. vm_compute. repeat split. Qed.
